@@ -90,7 +90,7 @@ class FString(object):
                     try:
                         completed = self.complete_debug_specifier(debug_specifier_candidates, v)
                         candidates = [
-                            x + y for x in candidates for y in FormattedValue(v, nested_allowed, self.pep701).get_candidates()
+                            x + y for x in candidates for y in FormattedValue(v, nested_allowed, self.pep701, quote).get_candidates()
                         ] + completed
                         debug_specifier_candidates = []
                     except Exception:
@@ -103,6 +103,10 @@ class FString(object):
         return filter(self.is_correct_ast, actual_candidates)
 
     def str_for(self, s, quote):
+        if self.pep701:
+            # Backslash escapes are allowed in a nested f-string, so every character can be written
+            return str(MiniString(s, quote)).replace('{', '{{').replace('}', '}}')
+
         return s.replace('{', '{{').replace('}', '}}')
 
 
@@ -154,13 +158,14 @@ class FormattedValue(ExpressionPrinter):
     An F-String Expression Part
     """
 
-    def __init__(self, node, allowed_quotes, pep701):
+    def __init__(self, node, allowed_quotes, pep701, enclosing_quote=None):
         super(FormattedValue, self).__init__()
 
         assert isinstance(node, ast.FormattedValue)
         self.node = node
         self.allowed_quotes = allowed_quotes
         self.pep701 = pep701
+        self.enclosing_quote = enclosing_quote
         self.candidates = ['']
 
     def get_candidates(self):
@@ -181,7 +186,7 @@ class FormattedValue(ExpressionPrinter):
 
         if self.node.format_spec is not None:
             self.printer.delimiter(':')
-            self._append(FormatSpec(self.node.format_spec, self.allowed_quotes, pep701=self.pep701).candidates())
+            self._append(FormatSpec(self.node.format_spec, self.allowed_quotes, pep701=self.pep701, enclosing_quote=self.enclosing_quote).candidates())
 
         self.printer.delimiter('}')
 
@@ -319,19 +324,27 @@ class Str(object):
                 )
 
         candidates = []
-        for start_quote in self.allowed_quotes:
-            self.current_quote = start_quote
-            s = ''
-            for literal in self._literals():
-                if s and s[-1] == literal[0]:
-                    s += ' '
-                s += literal
+        try:
+            for start_quote in self.allowed_quotes:
+                self.current_quote = start_quote
+                s = ''
+                for literal in self._literals():
+                    if s and s[-1] == literal[0]:
+                        s += ' '
+                    s += literal
 
-            if eval(s) == self._s:
-                candidates.append(s)
+                if eval(s) == self._s:
+                    candidates.append(s)
+        except Exception:
+            if not self.pep701:
+                raise
+            candidates = []
 
         if candidates:
             return min(candidates, key=len)
+        elif self.pep701:
+            # Backslash escapes are allowed, so there is always a literal (e.g. for a lone surrogate)
+            return repr(self._s)
         else:
             raise ValueError('Unable to string')
 
@@ -344,12 +357,13 @@ class FormatSpec(object):
 
     """
 
-    def __init__(self, node, allowed_quotes, pep701):
+    def __init__(self, node, allowed_quotes, pep701, enclosing_quote=None):
         assert isinstance(node, ast.JoinedStr)
 
         self.node = node
         self.allowed_quotes = allowed_quotes
         self.pep701 = pep701
+        self.enclosing_quote = enclosing_quote
 
     def candidates(self):
 
@@ -359,7 +373,7 @@ class FormatSpec(object):
                 candidates = [x + self.str_for(v.s) for x in candidates]
             elif isinstance(v, ast.FormattedValue):
                 candidates = [
-                    x + y for x in candidates for y in FormattedValue(v, self.allowed_quotes, self.pep701).get_candidates()
+                    x + y for x in candidates for y in FormattedValue(v, self.allowed_quotes, self.pep701, self.enclosing_quote).get_candidates()
                 ]
             else:
                 raise RuntimeError('Unexpected JoinedStr value')
@@ -367,6 +381,11 @@ class FormatSpec(object):
         return candidates
 
     def str_for(self, s):
+        if self.pep701 and self.enclosing_quote is not None:
+            # The text of a format spec is part of the enclosing f-string literal: backslashes, quotes and
+            # control characters need the same escapes as the rest of its text
+            return str(MiniString(s, self.enclosing_quote)).replace('{', '{{').replace('}', '}}')
+
         return s.replace('{', '{{').replace('}', '}}')
 
 
